@@ -229,8 +229,20 @@ def r2_functions(program, folder, rep, eths):
         trip = [tuple(e[1] for e in x[1:]) for x in PHI[1:]]
     except Exception:
         raise AnalysisError("spinn5_eth_coords: Ethernet offsets do not fold")
+    def _in_own_loop(x):
+        # inside a loop of this very function (not of a nested helper)
+        p_ = getattr(x, "_parent", None)
+        seen_loop = False
+        while p_ is not None and p_ is not fn:
+            if isinstance(p_, (ast.FunctionDef, ast.Lambda)):
+                return False
+            if isinstance(p_, (ast.For, ast.While)):
+                seen_loop = True
+            p_ = getattr(p_, "_parent", None)
+        return seen_loop
     early = [x for x in ast.walk(fn) if isinstance(x, (ast.Break,
-                                                       ast.Return))]
+                                                       ast.Return)) and
+             _in_own_loop(x)]
     rep.check(not early, "C19-R2", inst, "every cell and each of its three "
               "Ethernet positions is looked at (no early exit from the "
               "loops: positions are not visited in increasing order once "
